@@ -17,6 +17,15 @@ from spec import wire
 DEC = 'pamqp.decode.'
 
 
+def weakest(raises):
+    """(consumed >= 0, any value) or one of `raises`: subsumes every clause of a decoder contract."""
+    def havoc(c):
+        n = c.st.fresh_int('consumed')
+        c.st.assume(n >= 0)
+        return (SInt(n), SOpaque('foreign', c.st.fresh('garbage', sym.ObjS)))
+    return Case('weakest', havoc=havoc, may_raise=raises, garbles=True)
+
+
 def fixed(name, width, read, doc=''):
     def ok(c):
         return wire.peek(c.st, c.value, width) is not None
@@ -24,7 +33,7 @@ def fixed(name, width, read, doc=''):
     return Contract(DEC + name, [('value', T.bytes)], cases=[
         Case('enough-octets', when=ok, returns=lambda c: (width, read(c.st, wire.peek(c.st, c.value, width)))),
         Case('too-short', when=lambda c: not ok(c), raises=struct.error),
-    ], doc=doc or 'C05/C09: %d octet(s), struct.error when fewer are present' % width)
+    ], doc=doc or 'C05/C09: %d octet(s), struct.error when fewer are present' % width, fallback=weakest((struct.error,)))
 
 
 def r_uint(st, atoms):
@@ -67,6 +76,7 @@ def bit_contract():
     return Contract(DEC + 'bit', [('value', T.bytes), ('position', TSpec([('bit%d' % k, (lambda k: lambda st, n: k)(k)) for k in range(8)]))],
                     cases=[Case('bit-of-first-octet', when=ok, returns=out),
                            Case('empty', when=lambda c: not ok(c), raises=struct.error)],
+                    fallback=weakest((struct.error,)),
                     doc='C01/C05: bit `position` (LSB = 0) of the first octet; consumes nothing')
 
 
@@ -82,7 +92,8 @@ def length_prefixed(name, prefix, make, doc=''):
 
     cases = make(hdr, body)
     cases.append(Case('too-short', when=lambda c: hdr(c) is None, raises=struct.error))
-    return Contract(DEC + name, [('value', T.bytes)], cases=cases, doc=doc)
+    return Contract(DEC + name, [('value', T.bytes)], cases=cases, doc=doc,
+                    fallback=weakest((struct.error, UnicodeDecodeError)))
 
 
 def byte_array_cases(hdr, body):
@@ -161,9 +172,9 @@ def table_contract():
 
     return Contract(DEC + 'field_table', [('value', T.bytes)], cases=[
         Case('grammar-valid-table', when=good, returns=out),
-        Case('anything-else', when=lambda c: neg(good(c)), havoc=havoc,
+        Case('anything-else', when=lambda c: neg(good(c)), havoc=havoc, garbles=True,
              post=lambda c, r: isinstance(r, tuple) and len(r) == 2 and is_int(r[0]), may_raise=RAISES_DECODE),
-    ], trusted=True, name=DEC + 'field_table(abstract)',
+    ], trusted=True, name=DEC + 'field_table(abstract)', fallback=weakest(RAISES_DECODE),
         doc='abstract view for callers (the decoder itself is verified against the table grammar separately)')
 
 
